@@ -2,7 +2,7 @@
 From BV Require Import Base.Prelude Model.Block Model.ForkDB Model.Forkable Model.ForkableLookups
   Model.Burst Model.Hub Model.CursorResolver Model.Joining
   Spec.Consumer Spec.Universe Check.Burst_Check Check.C07_Check Spec.C06_Spec Spec.C07_Spec Spec.C09_Spec
-  Spec.C07_Compose_Spec Proofs.C07_ComposeCheck Proofs.C07_Compose Proofs.C07_ComposeCursor Proofs.C07_FullRefuted Proofs.C07_FilesFinal.
+  Spec.C07_Compose_Spec Proofs.C07_ComposeCheck Proofs.C07_Compose Proofs.C07_ComposeCursor Proofs.C07_ComposeCursorAll Proofs.C07_FullRefuted Proofs.C07_FilesFinal.
 Local Open Scope N_scope.
 
 (* number mode, default filter, no stop block: hub_agrees of C07_seamless_full discharged from the world *)
@@ -15,6 +15,17 @@ Print Assumptions c07_seamless_num.
 Theorem c07_seamless_cursor_partial : C07_seamless_cursor_files.
 Proof. exact c07_seamless_cursor_files_proof. Qed.
 Print Assumptions c07_seamless_cursor_partial.
+
+(* cursor mode when the hub serves the cursor itself: C05's burst applied to the consumer (given as one run of
+   blocks of the universe above the cursor-LIB block), then live *)
+Theorem c07_seamless_cursor_live : C07_seamless_cursor_live.
+Proof. exact c07_seamless_cursor_live_proof. Qed.
+Print Assumptions c07_seamless_cursor_live.
+
+(* cursor mode, both cases: the cursor-mode conjunct with the consumer's forked blocks in the universe *)
+Theorem c07_seamless_cursor : C07_seamless_cursor.
+Proof. exact c07_seamless_cursor_proof. Qed.
+Print Assumptions c07_seamless_cursor.
 
 (* the statement C07_seamless_full of Spec/C07_Spec.v itself is refutable (a run that ends waiting for the next
    merged file): why the theorems above have the conclusions they have *)
@@ -138,3 +149,31 @@ Qed.
 Example c07_compose_nonvacuous_files_final :
   files_final cx_c cx_w (filter (fun b => bnum b <? 14) cx_canon).
 Proof. apply files_final_b_sound. vm_compute. reflexivity. Qed.
+
+(* cursor mode, the hub serves the cursor: the consumer stopped at New 14 with cursor LIB 13 (it holds 14);
+   the hub (13..15) answers with the burst [New 15]; then live *)
+Definition cx_cu3 : cursor := mkCursor SNew (mkR 14 14) (mkR 15 15) (mkR 13 13).
+Definition cx_c3 : jcfg := mkJ 2 0 10 1 0 (Some cx_cu3) 0 0 0.
+
+Example c07_compose_nonvacuous_cursor_live :
+  hub_of_universe cx_U cx_c3 cx_w /\ eventual_tip cx_c3 cx_w cx_canon /\
+  j_mode cx_c3 = 1 /\ j_cursor cx_c3 = Some cx_cu3 /\ j_filter cx_c3 = 0 /\ j_stop cx_c3 = 0 /\
+  In (cx_b 13) cx_canon /\ consumer_at cx_U cx_cu3 (cx_b 13) [cx_b 14] /\
+  h_ready (w_hub cx_w) = true /\
+  (exists burst, blocks_from_cursor (h_f (w_hub cx_w)) cx_cu3 = BOk burst /\ map (fun e => (estep e, bid (eblk e))) burst = [(SNew, 15)]) /\
+  cx_show (stream_run cx_c3 cx_w [(3, 1); (12, 2)] 15 cx_merged [])
+  = ([(SNew, 15); (SNew, 116); (SUndo, 116); (SNew, 16); (SNew, 17); (SNew, 18); (SNew, 19); (SNew, 20)], JNil).
+Proof.
+  destruct c07_compose_nonvacuous_hyps as (_ & _ & Hhub & _ & _ & _ & _ & _).
+  split; [exact Hhub|].
+  split; [apply eventual_tip_b_sound; vm_compute; reflexivity|].
+  split; [reflexivity|]. split; [reflexivity|]. split; [reflexivity|]. split; [reflexivity|].
+  split; [vm_compute; tauto|].
+  split.
+  { split; [reflexivity|]. split.
+    - constructor; [|constructor]. unfold cx_U. apply in_or_app. left. vm_compute. tauto.
+    - left. split; [discriminate|]. split; [cbn; repeat split; lia | reflexivity]. }
+  split; [vm_compute; reflexivity|].
+  split; [eexists; split; vm_compute; reflexivity|].
+  vm_compute. reflexivity.
+Qed.
